@@ -329,7 +329,76 @@ def _clock_var_ok(f, name):
     return True
 
 
+def rule_c(ctx, out):
+    """networkx keeps successors in sets: the order of `transitive_reduction(g).edges` depends on the hashes of the node labels.  For
+    integer labels (positions in the access order) that order is the same in every process; for strings (instruction identifiers) it
+    changes with the hash seed.  Every relation handed to a function that returns edges of a networkx result must therefore be a
+    relation over positions: produced by generate_dependences (which only appends tuples of loop indices) or by such a function."""
+    GO_ = "sfs_generator.gasol_optimization"
+    # functions whose result is the edge list of a networkx graph
+    edge_funcs = set()
+    for f in ctx.p.funcs_in(GO_):
+        uses_nx = any(isinstance(c.func, ast.Attribute) and isinstance(c.func.value, ast.Name) and c.func.value.id == "nx" for c in calls_in(f.node))
+        returns_edges = any(isinstance(r, ast.Return) and r.value is not None and any(isinstance(x, ast.Attribute) and x.attr in ("edges", "nodes", "successors")
+                                                                                       for x in ast.walk(r.value)) for r in own_nodes(f.node))
+        if uses_nx and returns_edges:
+            edge_funcs.add(f.name)
+    if "simplify_dependences" not in edge_funcs:
+        raise AnalysisError("simplify_dependences is no longer recognised as returning the edges of a networkx graph")
+    # generate_dependences: every pair it appends consists of integer index expressions
+    gd = ctx.func(f"{GO_}.generate_dependences")
+    rets = {r.value.id for r in own_nodes(gd.node) if isinstance(r, ast.Return) and isinstance(r.value, ast.Name)}
+    int_names = {x.id for l in own_nodes(gd.node) if isinstance(l, ast.For) and isinstance(l.iter, ast.Call) and call_name(l.iter) == "range" for x in ast.walk(l.target)
+                 if isinstance(x, ast.Name)}
+    int_names |= {t.id for a in own_nodes(gd.node) if isinstance(a, (ast.Assign, ast.AugAssign))
+                  for t in (a.targets if isinstance(a, ast.Assign) else [a.target]) if isinstance(t, ast.Name)
+                  and isinstance(a.value, (ast.Constant, ast.BinOp, ast.Call)) and (not isinstance(a.value, ast.Constant) or isinstance(a.value.value, int))
+                  and (not isinstance(a.value, ast.Call) or call_name(a.value) == "len")}
+
+    def int_expr(e):
+        if isinstance(e, ast.Constant):
+            return isinstance(e.value, int)
+        if isinstance(e, ast.Name):
+            return e.id in int_names
+        if isinstance(e, ast.BinOp) and isinstance(e.op, (ast.Add, ast.Sub)):
+            return int_expr(e.left) and int_expr(e.right)
+        return False
+    apps = [c for c in calls_in(gd.node, "append") if isinstance(c.func, ast.Attribute) and isinstance(c.func.value, ast.Name) and c.func.value.id in rets]
+    if len(apps) < 5:
+        raise AnalysisError("generate_dependences: edge insertions not found")
+    positional = all(c.args and isinstance(c.args[0], ast.Tuple) and all(int_expr(x) for x in c.args[0].elts) for c in apps)
+    if positional:
+        out.ok({"generate_dependences": "appends only pairs of integer positions", "sites": len(apps)})
+    else:
+        out.bad("generate_dependences:pairs-not-positions", "generate_dependences appends a pair that is not made of integer positions", where(gd))
+    sources = {"generate_dependences"} | edge_funcs
+    n = 0
+    for f in ctx.p.functions.values():
+        for c in calls_in(f.node):
+            if call_name(c) not in edge_funcs or not c.args or f.name in edge_funcs:
+                continue
+            n += 1
+            a = c.args[0]
+            ok = False
+            if isinstance(a, ast.Call) and call_name(a) in sources:
+                ok = True
+            elif isinstance(a, ast.Name):
+                defs = [d for d in own_nodes(f.node) if isinstance(d, ast.Assign) and any(isinstance(t, ast.Name) and t.id == a.id for t in d.targets)]
+                others = [d for d in own_nodes(f.node) if isinstance(d, ast.AugAssign) and isinstance(d.target, ast.Name) and d.target.id == a.id] + \
+                         [m for m in calls_in(f.node) if isinstance(m.func, ast.Attribute) and isinstance(m.func.value, ast.Name) and m.func.value.id == a.id
+                          and m.func.attr in ("append", "extend", "insert")]
+                ok = bool(defs) and not others and all(isinstance(d.value, ast.Call) and call_name(d.value) in sources for d in defs) and a.id not in f.params
+            if ok:
+                out.ok({"function": f.qual, "call": short(c, 60), "relation": "over positions"})
+            else:
+                out.bad(f"graph-order-over-identifiers:{f.name}:{call_name(c)}", f"{f.qual}: `{short(c, 70)}` hands a relation that is not known to be over integer positions to "
+                        f"{call_name(c)}, whose result lists networkx edges in set order: for string identifiers that order depends on the hash seed", where(f, c))
+    if n < 3:
+        raise AnalysisError(f"only {n} uses of {sorted(edge_funcs)} found")
+
+
 RULES = [
+    ("C13.c", "graph-library edge orders only over integer positions", 4, rule_c),
     ("C13.a", "no order-sensitive iteration over a set of strings", 8, rule_a),
     ("C13.b", "uuid / clock / listdir values stay out of the outputs", 10, rule_b),
 ]
